@@ -437,10 +437,9 @@ func (s *diskSM) RecoverFromSnapshot(r io.Reader, done <-chan struct{}) error {
 		return err
 	}
 	s.i.st = st
-	// an on disk state machine must make the recovered state durable
-	if err := s.persist(); err != nil {
-		return err
-	}
+	// "RecoverFromSnapshot is not required to synchronize its recovered in-core
+	// state with that on disk" (statemachine/disk.go): the minimum the contract
+	// asks for; dragonboat calls Sync when it needs the state to be durable
 	s.i.env.SMRecovered(s.i, "recover", st.applied)
 	return nil
 }
